@@ -553,24 +553,34 @@ func lastNotice(h *hctl, from, ev int) string {
 func (rn *run) whyMissed(h *hctl, F *fetchRec) string { // w.mu held
 	d, ok := rn.dropped[F]
 	if !ok {
+		// no drop at all: whatever the last fetch returned is (as far as the probe saw) still in the store at this tick
 		if rn.held[F] {
 			return "still-stored"
 		}
 		return "never-stored-completely"
 	}
+	refetch := ":not-refetched"
+	for _, c := range h.causes {
+		if c.Event >= d.Event && c.Tag == "fetch-fail" {
+			refetch = ":refetch-failed"
+		}
+	}
+	within := d.Tag == "tick" && d.Event == rn.w.curEvent // dropped and missed within one tick: discarded before being executed
+	if rn.sched != nil {
+		// scheduler lane: coarse and stable (what HandleHeadEvent tells the handlers is not the harness's doing)
+		if within {
+			return "assignment-dropped-within-the-tick-of-the-duty" + refetch
+		}
+		return "assignment-dropped-before-replacement" + refetch
+	}
 	tag := d.Tag
 	if tag == "tick" {
 		tag = "tick-after-" + lastNotice(h, F.Event, d.Event)
-		if d.Event == rn.w.curEvent {
-			tag = "this-" + tag // dropped and missed within one tick: the handler discarded the assignment before executing it
+		if within {
+			tag = "this-" + tag
 		}
 	}
-	for _, c := range h.causes {
-		if c.Event >= d.Event && c.Tag == "fetch-fail" {
-			return "dropped-at-" + tag + ":refetch-failed"
-		}
-	}
-	return "dropped-at-" + tag + ":not-refetched"
+	return "dropped-at-" + tag + refetch
 }
 
 func (rn *run) deliverTick(h *hctl, s uint64) {
@@ -587,10 +597,6 @@ func (rn *run) deliverTick(h *hctl, s uint64) {
 		obl, bnDuties = rn.expected(h.r, s)
 	}
 	failBefore := w.nFetchFail[h.r]
-	if rn.sched != nil {
-		// index-change notices reach the handlers asynchronously there: attribute a drop seen now to that (diagnostic only)
-		rn.probe(h, "async-"+lastNotice(h, 0, w.curEvent))
-	}
 	w.mu.Unlock()
 	line := fmt.Sprintf("tick %s slot %d", roleName[h.r], s)
 	if !onTime {
@@ -640,7 +646,11 @@ func (rn *run) deliverTick(h *hctl, s uint64) {
 		if o.F.X > rn.xOf(h.r, o.F.Now) {
 			ahead = "fetched-ahead"
 		}
-		rn.violation("missed-duty", fmt.Sprintf("%s:%s:%s", roleName[h.r], ahead, rn.whyMissed(h, o.F)),
+		sig := fmt.Sprintf("%s:%s:%s", roleName[h.r], ahead, rn.whyMissed(h, o.F))
+		if rn.sched != nil {
+			sig = fmt.Sprintf("%s:%s", roleName[h.r], rn.whyMissed(h, o.F))
+		}
+		rn.violation("missed-duty", sig,
 			fmt.Sprintf("%s duty of active validator %d for slot %d was not dispatched at the tick of slot %d (event #%d) although the %s assignment of epoch/period %d "+
 				"(version %d, still the beacon node's current one) had been fetched successfully in event #%d for that validator",
 				o.Key.T.String(), o.Key.V, s, s, w.curEvent, roleName[h.r], o.F.X, o.F.Ver, o.F.Event))
